@@ -94,6 +94,7 @@ fn main() {
                         "B" => engine_b::replay(&r.config, &r.case),
                         "seed" => props_a::replay_seed(&r.config),
                         "C12s" => props_g::replay_c12s(&r.config),
+                        "C08s" => props_c08::replay_sparse(&r.config),
                         // the dotted-name cases are re-created from the golden images: the whole quick check is the replay
                         "C12n" => {
                             std::env::set_var("ABYV_OUT", std::env::temp_dir().join("abyv-replay-out"));
